@@ -11,8 +11,10 @@ go test -vet=off -count=1 -skip "$rx" ./... > /tmp/confirm_suite.log 2>&1; s=$?
 echo "suite-with-mutant exit=$s ($(grep -c '^ok' /tmp/confirm_suite.log) ok, $(grep -c '^FAIL\|^---' /tmp/confirm_suite.log) fail lines)"
 go test -vet=off -count=1 -run "$rx" $pkg > /tmp/confirm_demo1.log 2>&1; d1=$?
 echo "demo-with-mutant exit=$d1 (expect non-zero)"
+git checkout -q go.mod go.sum 2>/dev/null
 git stash -q -- $(git diff --name-only) 
 go test -vet=off -count=1 -run "$rx" $pkg > /tmp/confirm_demo2.log 2>&1; d2=$?
 echo "demo-without-mutant exit=$d2 (expect 0)"
+git checkout -q go.mod go.sum 2>/dev/null
 git stash pop -q
 [ $s -eq 0 ] && [ $d1 -ne 0 ] && [ $d2 -eq 0 ] && echo CONFIRMED || echo NOT-CONFIRMED
